@@ -519,15 +519,23 @@ def cmp_geom(ctx, item, line):
     mo = int(w[1])
     if mo != int(out):
         # a uniform within rounding of a break-point of floor(log|x| / scale)?
-        if cfg["sens"] != 0 and cfg["eps"] != INF:
+        if cfg["sens"] != 0 and cfg["eps"] != INF and abs(mo - int(out)) == 1:
+            # floor(log|x| / scale) is a step function of the uniform; exp/log differ by an ulp between numpy and Lean, and
+            # for |x| close to 1 and a tiny scale the quotient is ill-conditioned: evaluate it over a +-4 ulp neighbourhood
             s = -cfg["eps"] / cfg["sens"]
             for u in spec["uniforms"]:
                 c = u - 0.5
                 if c == 0:
                     continue
-                x = abs(c * (1 + math.exp(s)))
-                t = math.log(x) / s if x > 0 else 0.0
-                if abs(t - round(t)) <= 1e-9 * max(1.0, abs(t)):
+                ts = []
+                for ke in (-2, 0, 2):
+                    x = abs(c * (1 + gen.offset_ulps(math.exp(s), ke)))
+                    for kx in (-4, 0, 4):
+                        xx = gen.offset_ulps(x, kx)
+                        if xx > 0:
+                            for kl in (-2, 0, 2):
+                                ts.append(gen.offset_ulps(math.log(xx), kl) / s)
+                if ts and math.floor(min(ts) - 1e-9 * max(1.0, abs(min(ts)))) != math.floor(max(ts) + 1e-9 * max(1.0, abs(max(ts)))):
                     ctx.boundary_skipped += 1
                     return True
                 break
@@ -845,7 +853,7 @@ def sel_direct(case):
         if eps == INF or case["sens"] == 0:
             idx = cands.index(out)
             if not np.isclose(case["utility"][idx], max(case["utility"])):
-                return (f"C12:{name}:degenerate" + ("-u0" if case.get("u") == 0.0 else ""),
+                return (f"C12:{name}:degenerate" + ("-u0" if case.get("u") == 0.0 else "-umax" if case.get("u") == ONE_M else ""),
                         f"{desc} returned {out!r} whose utility {case['utility'][idx]} is not the maximum")
         return None
     if name in ("ExponentialCategorical", "ExponentialHierarchical"):
@@ -901,6 +909,10 @@ FIXED_SEL = [
     {"mech": "Exponential", "eps": INF, "sens": 1.0, "utility": [0.0, 5.0], "candidates": None, "monotonic": False, "seed": 0, "u": 0.0},
     {"mech": "Exponential", "eps": 1.0, "sens": 0.0, "utility": [0.0, 5.0], "candidates": ["a", "b"], "monotonic": False, "seed": 0, "u": 0.0},
     {"mech": "ExponentialCategorical", "eps": INF, "value": "b", "seed": 0, "u": 0.0, "utility_list": [["a", "b", 1.0]]},
+    # the isclose fallback for a uniform above the (rounded) last cumulative probability must not return a
+    # zero-probability last candidate
+    {"mech": "Exponential", "eps": INF, "sens": 1.0, "utility": [1.0, 1.0, 1.0, 1.0, 1.0, 1.0, -3.18],
+     "candidates": ["c0", "c1", "c2", "c3", "c4", "c5", "c6"], "monotonic": False, "seed": 0, "u": ONE_M},
     {"mech": "ExponentialHierarchical", "eps": INF, "hierarchy": ["A", "B", "C", "D"], "value": "C", "leaves": ["A", "B", "C", "D"], "seed": 0, "u": 0.0},
 ]
 
